@@ -11,6 +11,7 @@ PID = 'C15'
 SIGMA = ['A', 'a', 'b', '1', '!', '#', '*', '.', ':', '0', '^', '$', '[', ']', '(', ')', '\\', '+', '?', '|', '{', '}', '-']
 NAMECH = [c for c in SIGMA if c not in '.:#*']
 DIRS = ['$', 'A', 'a', '^']
+DIRS_DEFAULT = DIRS
 
 
 def metaclass(p):
@@ -74,6 +75,7 @@ def ref_match(parsed, d, name):
 
 
 ALLNAMES = [a for a in NAMECH] + [a + b for a in NAMECH for b in NAMECH]
+ALLNAMES_DEFAULT = ALLNAMES
 
 
 def w_matrix(case):
@@ -83,6 +85,7 @@ def w_matrix(case):
         cd, cs, cdir = case['ctx']
         req = b''
         pats = case['patterns']
+        DIRS, ALLNAMES = case.get('dirs', DIRS_DEFAULT), case.get('names', ALLNAMES_DEFAULT)
         targets = [(d, n) for d in DIRS for n in ALLNAMES]
         # the volume offered to matches() is the pattern's own volume (as `info` does); ask in two passes
         first = b''.join(mcx.req_afsp(cd, cs, cdir, p.encode('latin-1'), []) for p in pats)
@@ -382,6 +385,22 @@ def fam_matrix(tier):
             yield {'w': 'matrix', 'ctx': list(ctx), 'patterns': use[i:i + 40], 'variant': 'san' if (i // 40) % 8 == 0 else 'plain'}
 
 
+PRINTABLE = [chr(c) for c in range(0x21, 0x7F) if chr(c) not in '.:#*']
+
+
+def fam_printable(tier):
+    """every printable character c that may occur in a DFS name, in 9 pattern shapes, against names built from every
+    printable character (c alone, before/after a letter, doubled) and as directory character"""
+    names = ['A', 'AA', 'AB'] + [x for x in PRINTABLE] + ['A' + x for x in PRINTABLE] + [x + 'A' for x in PRINTABLE] + [x + x for x in PRINTABLE]
+    names = sorted(set(names))
+    for c in PRINTABLE:
+        pats = [c, 'A' + c, c + 'A', '*' + c, c + '*', '#' + c, c + '#', 'A' + c + '*', c + c]
+        yield {'w': 'matrix', 'ctx': [0, None, '$'], 'patterns': pats, 'names': names, 'dirs': ['$'], 'variant': 'plain'}
+    for i in range(0, len(PRINTABLE), 8):
+        pats = [c + '.A' for c in PRINTABLE[i:i + 8]] + [c + '.*' for c in PRINTABLE[i:i + 8]]
+        yield {'w': 'matrix', 'ctx': [0, None, '$'], 'patterns': pats, 'names': ['A', 'a', 'B'], 'dirs': PRINTABLE, 'variant': 'san'}
+
+
 def fam_info(tier):
     """info PATTERN through the real binary on a catalogue of metacharacter names: all patterns of length <=2 + shapes"""
     pats = list(all_patterns(2)) + [p for p in shaped_patterns() if p.startswith(':0.') or not p.startswith(':')][::(3 if tier == 'quick' else 1)]
@@ -403,7 +422,7 @@ def fam_type(tier):
                 yield {'w': 'type', 'watford': [n1, n2]}
 
 
-FAMILIES = [('T-type-lookups', fam_type), ('I-info-cli', fam_info), ('M-matcher-matrix', fam_matrix)]
+FAMILIES = [('T-type-lookups', fam_type), ('I-info-cli', fam_info), ('P-every-printable-character', fam_printable), ('M-matcher-matrix', fam_matrix)]
 
 
 def main(tier, seed):
